@@ -39,7 +39,30 @@ pub struct Opt {
     pub c: bool,
     pub cn: bool,
     pub app: bool,
+    /// custom flag O_TMPFILE (creates an anonymous inode without O_CREAT)
+    pub tmp: bool,
+    /// mode argument of the open (OpenOptions::mode), 0o666 by default
+    pub mode: u32,
 }
+
+impl Opt {
+    /// the custom flags of this open (what is handed to OpenOptions::custom_flags)
+    pub fn custom_flags(&self) -> i32 {
+        (if self.app { libc::O_APPEND } else { 0 }) | (if self.tmp { libc::O_TMPFILE } else { 0 })
+    }
+}
+
+/// Permission bits (st_mode & 0o7777) of the inode behind a descriptor.
+pub fn fd_perm(fd: i32) -> i64 {
+    let mut st: libc::stat = unsafe { std::mem::zeroed() };
+    if unsafe { libc::fstat(fd, &mut st) } != 0 {
+        return -1;
+    }
+    (st.st_mode & 0o7777) as i64
+}
+
+/// The umask every run fixes at start (the model's Masked() is `mode & !UMASK`).
+pub const UMASK: libc::mode_t = 0o022;
 
 impl Op {
     pub fn parse(v: &Value) -> Op {
@@ -70,6 +93,8 @@ impl Op {
                 c: b("c"),
                 cn: b("cn"),
                 app: b("app"),
+                tmp: b("tmp"),
+                mode: o.get("mode").and_then(|x| x.as_u64()).unwrap_or(0o666) as u32,
             },
         }
     }
@@ -205,6 +230,8 @@ pub struct Node {
     pub c: Vec<u8>,
     pub to: String,
     pub ino: u64,
+    /// permission bits of a file (0 otherwise)
+    pub perm: u32,
 }
 
 pub fn snapshot(dir: &Path) -> Vec<Node> {
@@ -213,15 +240,22 @@ pub fn snapshot(dir: &Path) -> Vec<Node> {
         .map(|p| {
             let path = dir.join(p);
             match std::fs::symlink_metadata(&path) {
-                Err(_) => Node { k: "none".into(), c: vec![], to: String::new(), ino: 0 },
+                Err(_) => Node { k: "none".into(), c: vec![], to: String::new(), ino: 0, perm: 0 },
                 Ok(m) if m.file_type().is_symlink() => Node {
                     k: "sym".into(),
                     c: vec![],
                     to: std::fs::read_link(&path).map(|t| t.to_string_lossy().into_owned()).unwrap_or_default(),
                     ino: 0,
+                    perm: 0,
                 },
-                Ok(m) if m.is_dir() => Node { k: "dir".into(), c: vec![], to: String::new(), ino: 0 },
-                Ok(m) => Node { k: "file".into(), c: std::fs::read(&path).unwrap_or_default(), to: String::new(), ino: m.ino() },
+                Ok(m) if m.is_dir() => Node { k: "dir".into(), c: vec![], to: String::new(), ino: 0, perm: 0 },
+                Ok(m) => Node {
+                    k: "file".into(),
+                    c: std::fs::read(&path).unwrap_or_default(),
+                    to: String::new(),
+                    ino: m.ino(),
+                    perm: m.mode() & 0o7777,
+                },
             }
         })
         .collect()
@@ -238,6 +272,7 @@ pub fn model_snapshot(ns: &Value) -> Vec<Node> {
                 c: bytes_of(&n["c"]),
                 to: n["to"].as_str().unwrap_or("").to_string(),
                 ino: n["ino"].as_u64().unwrap_or(0),
+                perm: n["perm"].as_u64().unwrap_or(0) as u32,
             }
         })
         .collect()
@@ -246,8 +281,11 @@ pub fn model_snapshot(ns: &Value) -> Vec<Node> {
 /// Equality of snapshots up to renaming of inode numbers (hard links must coincide).
 pub fn snap_diff(a: &[Node], b: &[Node]) -> Option<String> {
     for (i, (x, y)) in a.iter().zip(b).enumerate() {
-        if x.k != y.k || x.c != y.c || x.to != y.to {
-            return Some(format!("{}: {:?}/{:?}/{} vs {:?}/{:?}/{}", PATHS[i], x.k, x.c, x.to, y.k, y.c, y.to));
+        if x.k != y.k || x.c != y.c || x.to != y.to || x.perm != y.perm {
+            return Some(format!(
+                "{}: {:?}/{:?}/{}/{:o} vs {:?}/{:?}/{}/{:o}",
+                PATHS[i], x.k, x.c, x.to, x.perm, y.k, y.c, y.to, y.perm
+            ));
         }
     }
     for i in 0..a.len() {
